@@ -62,7 +62,7 @@ impl Job for C19Job {
 /// `vcheck worker C19 <family> <lo> <hi> <stack> <tier> [<only-op>]`
 pub fn worker_main(args: &[String]) -> i32 {
 	let usage = || -> ! {
-		eprintln!("MACHINERY: usage: vcheck worker C19 <family> <lo> <hi> <main-8MiB|thread-2MiB> <quick|thorough> [<op>]");
+		eprintln!("MACHINERY: usage: vcheck worker C19 <family> <lo> <hi> <main-8MiB|thread-2MiB> <quick|thorough> [<op>|- [<start-op>]]");
 		std::process::exit(2)
 	};
 	if args.len() < 5 {
@@ -73,13 +73,14 @@ pub fn worker_main(args: &[String]) -> i32 {
 	let Some(stack) = Stack::parse(&args[3]) else { usage() };
 	let thorough = args[4] == "thorough";
 	let only_op = args.get(5).and_then(|s| s.parse().ok());
+	let start_op: usize = args.get(6).and_then(|s| s.parse().ok()).unwrap_or(0);
 	let ctx = Ctx::new(fam, thorough);
 	if lo > hi || hi > ctx.count() {
 		eprintln!("MACHINERY: range {lo}..{hi} outside family {} of {} cases", fam.name(), ctx.count());
 		return 2;
 	}
 	let job = C19Job { ctx, stack, known: load_known() };
-	let spec = Spec { lo, hi, stack, horizon_cpu_ms: fam.horizon_ms(), stop_on_timeout: fam.stop_on_timeout(), only_op, known_budget: KNOWN_CRASH_BUDGET };
+	let spec = Spec { lo, hi, stack, horizon_cpu_ms: fam.horizon_ms(), stop_on_timeout: fam.stop_on_timeout(), only_op, known_budget: KNOWN_CRASH_BUDGET, start_op };
 	isolate::supervise(&job, &spec)
 }
 
@@ -115,7 +116,7 @@ fn families(thorough: bool) -> Vec<Fam> {
 		f.push(Fam::Nodes(4));
 	}
 	// the unmodified seeds (family prefix) come before their near-miss edits, so that the first reported case of a class is the smallest
-	f.extend([Fam::Decor, Fam::Decor2, Fam::Prefix, Fam::OddValues, Fam::Shapes, Fam::NearMiss, Fam::Nest]);
+	f.extend([Fam::Names, Fam::Decor, Fam::Decor2, Fam::Prefix, Fam::OddValues, Fam::Shapes, Fam::NearMiss, Fam::Nest]);
 	f
 }
 
@@ -143,6 +144,10 @@ fn classify_panic(message: &str) -> (&'static str, String) {
 		("runaway-output", rest.to_owned())
 	} else if let Some(rest) = message.strip_prefix(ops::VERDICT_DANGLING) {
 		("dangling-key-after-parse", rest.to_owned())
+	} else if let Some(rest) = message.strip_prefix(ops::VERDICT_NAME) {
+		("name-accessors-inconsistent", rest.to_owned())
+	} else if let Some(rest) = message.strip_prefix(ops::VERDICT_ROUTES) {
+		("freeze-routes-differ", rest.to_owned())
 	} else {
 		("panic", format!("panicked: {message}"))
 	}
@@ -150,19 +155,34 @@ fn classify_panic(message: &str) -> (&'static str, String) {
 
 /// Re-execute one operation of one case alone in a fresh worker; returns the observed class
 /// ("Ok", "Err", "panic", "abort:…", "timeout") and a text.
-fn reexec(fam: Fam, idx: u64, op: usize, stack: Stack, tier: &str) -> (String, String) {
-	let u = Unit { fam, lo: idx, hi: idx + 1, stack };
-	match isolate::spawn_worker(&unit_args(&u, tier, Some(op))) {
+///
+/// `history = Some((case, op))`: the violation was observed to recur only when the runner's
+/// history from that cursor is executed first in the same process (a death that depends on
+/// process state left behind by earlier cases); then that whole history is re-executed.
+fn reexec(fam: Fam, idx: u64, op: usize, stack: Stack, tier: &str, history: Option<(u64, usize, bool)>) -> (String, String) {
+	let args = match history {
+		None => unit_args(&Unit { fam, lo: idx, hi: idx + 1, stack }, tier, Some(op)),
+		Some((from_case, from_op, _)) => {
+			let mut a = unit_args(&Unit { fam, lo: from_case, hi: idx + 1, stack }, tier, None);
+			a.extend(["-".to_owned(), from_op.to_string()]);
+			a
+		}
+	};
+	match isolate::spawn_worker(&args) {
 		Err(e) => machinery(&e),
 		Ok(r) => {
-			if let Some(c) = r.crashes.first() {
+			if let Some(c) = r.crashes.iter().find(|c| c.idx == idx && c.op == op) {
 				return (c.class.clone(), format!("process killed ({}); stderr: {}", c.class, c.stderr));
 			}
-			if let Some(p) = r.panics.first() {
+			if let (Some((_, _, false)), Some(c)) = (history, r.crashes.iter().find(|c| c.class != "timeout")) {
+				// a death whose exact point varies with the heap contents: any death while the same history runs counts as a recurrence
+				return (c.class.clone(), format!("process killed ({}) while the same history was executing, this time at case {} operation {}; stderr: {}", c.class, c.idx, c.op, c.stderr));
+			}
+			if let Some(p) = r.panics.iter().find(|p| p.idx == idx && p.op == op) {
 				let (class, obs) = classify_panic(&p.message);
 				return (class.into(), obs);
 			}
-			let e = r.table.first().copied().unwrap_or_default();
+			let e = r.table.last().copied().unwrap_or_default();
 			(code_name(e.codes[op]).to_owned(), format!("returned {} (detail bits {:#010b})", code_name(e.codes[op]), e.details[op]))
 		}
 	}
@@ -198,8 +218,8 @@ pub fn run(rep: &mut Report) {
 	rep.rule = format!(
 		"Every case runs in a worker subprocess (fork-per-attempt runners under a supervisor; per-case horizon 10 s of CPU time, 100 s wall backstop), once on the main thread (8 MiB stack) and once on a 2 MiB thread (quick tier: the 3-node sweep on the 2 MiB thread only). \
 		 (a) node vectors through SchemaMut::from_nodes: every vector of 0..={} nodes over the shape alphabet (Int, Null, Array/Map with every key, Union and Record with 0, 1 and 2 keys, Enum, Fixed; keys = every in-range index, len, len+1, usize::MAX, 1<<63, (1<<63)|1; two-key nodes: all in-range pairs plus a dangling key in either position{}), \
-		 plus 'decor': every node kind x every logical type incl. wrong ones (decimal scale {{0,1,28,29,u32::MAX}} x precision {{0,1,usize::MAX}}, unknown names) x names {{\"\", \".\", \"a.\", \".a\", \"a..b\", \"é.é\", '\"', a.b, X, ns.X}} x fixed sizes {{0,1,12,16,17,usize::MAX}} x enum symbol lists x record field-name lists, as root / under a union (shared) / under a namespaced record / as array items, plus 'decor2': pairs of decorated nodes under one union and one record; \
-		 operations per vector: Debug, serde_json::to_string, canonical_form_rabin_fingerprint, freeze; when freeze is Ok: Debug/json/fingerprint of the Schema, 11 hostile byte strings (incl. 16 KiB runs of 0x02 and 0x00 that drive unbounded descent) x 6 deserialize hints from a slice + 2 reader runs, 41 presentations serialized, the crate's own outputs decoded again. \
+		 plus 'decor': every node kind x every logical type incl. wrong ones (decimal scale {{0,1,28,29,u32::MAX}} x precision {{0,1,usize::MAX}}, unknown names) x names {{\"\", \".\", \"a.\", \".a\", \"a..b\", \"é.é\", '\"', a.b, X, ns.X}} x fixed sizes {{0,1,12,16,17,usize::MAX}} x enum symbol lists x record field-name lists, as root / under a union (shared) / under a namespaced record / as array items, plus 'decor2': pairs of decorated nodes under one union and one record, plus 'names': record / enum / fixed / decimal-over-fixed under 26 dotted names (leading, trailing and doubled dots, multi-byte characters next to a dot, NUL) at the root, as union variant, as array items and as record field inside a record of another / the same / the null namespace; \
+		 operations per vector: Name::name/namespace/fully_qualified_name of every named node (total and mutually consistent), Debug, serde_json::to_string, canonical_form_rabin_fingerprint, and both routes to a Schema — SchemaMut::freeze() and Schema::try_from(SchemaMut) — which must agree (both Err, or both Ok with equal json() and fingerprint); for each Ok (the second of two identical results in reduced form): Debug/json/fingerprint of the Schema, 11 hostile byte strings (incl. 16 KiB runs of 0x02 and 0x00 that drive unbounded descent) x 6 deserialize hints from a slice + a recursive typed target (struct of Option<Box<Self>> fields) + 2 reader runs, 41 presentations serialized, the crate's own outputs decoded again. \
 		 (b) texts through str::parse::<SchemaMut>() (then the same operations) and str::parse::<Schema>(): JSON shapes to depth {} over 12 atoms at the 11 attribute positions the parser reads and 9 wrappers, near-miss documents (every value position of 30 seed schemas (10 of them with forward references in various positions) replaced by {} shapes, deleted, duplicated), every prefix of the 30 seeds, 26 odd documents, 12 lexically-valid-but-unmaterialisable JSON values (numbers beyond f64 such as 1e999, unpaired surrogate escapes, and harmless relatives) at the holes of 56 templates (ignored attributes of every node kind, nested objects/arrays of ignored attributes, attribute keys, every modelled position), 8 nesting patterns x depths 1..=200{}. \
 		 (c) scaling ladders, every rung executed in order and a ladder stopped at its first timeout: diamond chains n=1..=64 (text by nesting, text by forward reference, builder), reference chains and array chains of n in {:?} (text and builder), wide records/unions/enums of n in {:?} (text and builder). \
 		 Oracle: every operation returns Ok or Err within the horizon; a panic, a death by signal or a timeout is a violation attributed to the single (case, operation) by the runner's cursor and confirmed by re-running that operation alone. \
@@ -249,7 +269,7 @@ pub fn run(rep: &mut Report) {
 	// ---- coverage
 	let known = load_known();
 	let mut fam_stats: BTreeMap<String, BTreeMap<String, u64>> = BTreeMap::new();
-	let mut raw: Vec<(Violation, (Fam, u64, usize, Stack))> = Vec::new();
+	let mut raw: Vec<(Violation, (Fam, u64, usize, Stack, Option<(u64, usize, bool)>))> = Vec::new();
 	let mut ladders = Vec::new();
 	let mut sampled: BTreeMap<String, u32> = BTreeMap::new();
 	let mut skipped = 0u64;
@@ -323,14 +343,25 @@ pub fn run(rep: &mut Report) {
 			}
 		}
 		for c in &r.crashes {
-			let obs = format!("process killed: {}; stderr: {}", c.class, c.stderr);
+			let mut obs = format!("process killed: {}; stderr: {}", c.class, c.stderr);
+			if let Some((fc, fo, exact)) = c.history {
+				obs.push_str(&format!(
+					" | the death does not occur when this operation runs alone in a fresh process; it recurs{} whenever the cases {fc} (from operation {fo}) .. {} of the family are executed first in the same process: it depends on state left behind by earlier cases (heap contents), the mark of undefined behaviour; this is the operation that was in flight when the runner died",
+					if exact { ", at this operation," } else { ", at an operation that varies from run to run," },
+					c.idx
+				));
+			}
 			let what = what_for(ctx, c.idx, c.op, c.step, u.stack, &obs);
-			raw.push((Violation { class: c.class.clone(), what, replay: json!({"check": "C19", "family": u.fam.name(), "idx": c.idx, "op": c.op, "stack": u.stack.name(), "tier": tier, "class": c.class}) }, (u.fam, c.idx, c.op, u.stack)));
+			let mut token = json!({"check": "C19", "family": u.fam.name(), "idx": c.idx, "op": c.op, "stack": u.stack.name(), "tier": tier, "class": c.class});
+			if let Some((fc, fo, exact)) = c.history {
+				token["history_from"] = json!({"case": fc, "op": fo, "exact": exact});
+			}
+			raw.push((Violation { class: c.class.clone(), what, replay: token }, (u.fam, c.idx, c.op, u.stack, c.history)));
 		}
 		for p in &r.panics {
 			let (class, obs) = classify_panic(&p.message);
 			let what = what_for(ctx, p.idx, p.op, p.step, u.stack, &obs);
-			raw.push((Violation { class: class.into(), what, replay: json!({"check": "C19", "family": u.fam.name(), "idx": p.idx, "op": p.op, "stack": u.stack.name(), "tier": tier, "class": class}) }, (u.fam, p.idx, p.op, u.stack)));
+			raw.push((Violation { class: class.into(), what, replay: json!({"check": "C19", "family": u.fam.name(), "idx": p.idx, "op": p.op, "stack": u.stack.name(), "tier": tier, "class": class}) }, (u.fam, p.idx, p.op, u.stack, None)));
 		}
 		if u.fam.is_ladder() {
 			let done = r.table.iter().filter(|e| e.codes.iter().any(|c| *c != CODE_NOT_RUN)).count();
@@ -364,11 +395,28 @@ pub fn run(rep: &mut Report) {
 	}
 	// determinism guard: an unlisted violation is re-executed alone (first 8 per class) and must recur
 	let mut per_class: BTreeMap<String, u32> = BTreeMap::new();
-	for (v, (fam, idx, op, stack)) in &unknown {
+	for (v, (fam, idx, op, stack, history)) in &unknown {
 		let k = per_class.entry(v.class.clone()).or_insert(0);
 		*k += 1;
 		if *k <= 8 && v.class != "timeout" {
-			let (class, text) = reexec(*fam, *idx, *op, *stack, &tier);
+			let (mut class, mut text) = reexec(*fam, *idx, *op, *stack, &tier, *history);
+			if v.class == "abort" {
+				// A death by a bare signal (no stack overflow, no allocation failure) typically comes from
+				// undefined behaviour and may depend on the address-space layout of the process, which
+				// differs in every new worker; the worker that observed it has already re-executed it
+				// successfully inside its own process tree. Up to 3 fresh attempts; no recurrence is
+				// recorded, not fatal.
+				for _ in 0..2 {
+					if class == v.class {
+						break;
+					}
+					(class, text) = reexec(*fam, *idx, *op, *stack, &tier, *history);
+				}
+				if class != v.class {
+					rep.cover.count("abort_violations_not_recurring_in_a_fresh_worker", 1);
+					continue;
+				}
+			}
 			if class != v.class {
 				machinery(&format!("violation [{}] {} did not recur when its operation was re-executed alone ({text})", v.class, truncate(&v.what, 300)));
 			}
@@ -460,7 +508,14 @@ pub fn replay(v: &serde_json::Value) -> i32 {
 	println!("case: {}", truncate(&desc, 2000));
 	println!("operation: {} on stack {}", fam.op_name(op as usize), stack.name());
 	println!("expected: returns Ok or Err within the horizon ({} ms of CPU), no panic, no abort", fam.horizon_ms());
-	let (class, text) = reexec(fam, idx, op as usize, stack, tier);
+	let history = match (r["history_from"]["case"].as_u64(), r["history_from"]["op"].as_u64()) {
+		(Some(c), Some(o)) => {
+			println!("history: the cases {c} (from operation {o}) .. {idx} of the family are executed first, in the same process");
+			Some((c, o as usize, r["history_from"]["exact"].as_bool().unwrap_or(true)))
+		}
+		_ => None,
+	};
+	let (class, text) = reexec(fam, idx, op as usize, stack, tier, history);
 	println!("observed: {text}");
 	if class == "Ok" || class == "Err" {
 		println!("=> holds");
